@@ -62,6 +62,8 @@ def gen_plan(rng, tier, run):
             if i != j and ("%08X" % g["recipe"]["eid"]) in f["name"]:
                 f["name"] = "pel_%08X" % f["recipe"]["eid"]
     plan = {"files": files, "extra": extra, "all_src": all_src,
+            # process model: every invocation in a fresh module set (= its own process) or all in one process
+            "fresh": rng.random() < 0.4,
             "exclude": rng.sample(common.REFCODE_POOL, rng.randint(0, 5)) + ["B1234567"], "ops": []}
     pool = list(files)
     nops = rng.randint(4, 12)
@@ -166,6 +168,8 @@ def execute(plan):
     datas = {}
     mutated = False
     with World() as w:
+        w.fresh_per_run = bool(plan.get("fresh"))
+        bump("process_model:fresh" if w.fresh_per_run else "process_model:shared")
         common.put_store(w, "D", plan["files"])
         w.put("X/exclude.txt", "\n".join(plan["exclude"]).encode())
         for f in plan["files"]:
